@@ -2,3 +2,4 @@
 -- helper lemmas (Lemmas), property theorems (Props).
 import TssVerif.Core.Ops
 import TssVerif.Props.C16
+import TssVerif.Props.C14
